@@ -600,6 +600,14 @@ def emit_fn(root, d, log_all):
 
 def apply_slice(body, d, log):
     a, b = d["slice"]
+    if b == "END":
+        if body.count(a) != 1:
+            raise ExtractError(f"lost anchor: slice anchor matches {body.count(a)} times")
+        i = body.index(a)
+        j = body.rindex("}")
+        seg = body[i:j]
+        log.append({"rule": "R10", "note": f"slice from `{a}` to the end of the function body ({seg.count(chr(10))} lines)"})
+        return "{\n" + seg + d.get("slice_tail", "") + "\n}"
     if body.count(a) != 1 or body.count(b) != 1:
         raise ExtractError(f"lost anchor: slice anchors match {body.count(a)}/{body.count(b)} times")
     i = body.index(a)
